@@ -862,6 +862,7 @@ func famMusigKeyAgg(k *mon.Case) {
 		return
 	}
 	cur := pre
+	dead := false
 	for i := 0; i < nt; i++ {
 		var t musig2.KeyTweakDesc
 		t.IsXOnly = r.Bool()
@@ -875,6 +876,9 @@ func famMusigKeyAgg(k *mon.Case) {
 		switch c := r.Intn(8); {
 		case c == 0 && last:
 			tv, cls = new(big.Int).Mod(new(big.Int).Neg(gx), refec.N), "cancels-key"
+		case c == 0 && !dead && cls == "plain":
+			// an intermediate key at infinity: BIP327 ApplyTweak fails there, whatever the later tweaks are
+			tv, cls, dead = new(big.Int).Mod(new(big.Int).Neg(gx), refec.N), "cancels-key-mid-chain", true
 		case c == 1 && last:
 			tv, cls = new(big.Int).Set(refec.N), "equals-n"
 		case c == 2 && last:
@@ -890,12 +894,15 @@ func famMusigKeyAgg(k *mon.Case) {
 		}
 		copy(t.Tweak[:], refec.Bytes32(tv))
 		s.tweaks = append(s.tweaks, t)
-		if tv.Cmp(refec.N) < 0 {
+		if tv.Cmp(refec.N) < 0 && !dead {
 			x = new(big.Int).Mod(new(big.Int).Add(gx, tv), refec.N)
 			if nc, err := cur.ApplyTweak(t.Tweak[:], t.IsXOnly); err == nil {
 				cur = nc
 			}
 		}
+	}
+	if dead {
+		cls = "cancels-key-mid-chain"
 	}
 	s.shape = fmt.Sprintf("n=%d,dups=%d,sort=%v,tweaks=%d,%s", len(s.signers), s.dups, s.sort, nt, cls)
 	k.Desc(s.desc("musig.keyagg", map[string]any{"class": cls}))
